@@ -69,6 +69,8 @@ class Ctx:
         self.lines.append(f"OK rule={rid} site={site} construct={what}")
 
     def viol(self, rid: str, key: str, site: str, message: str, **detail):
+        if any(v.rule == rid and v.key == key for v in self.violations):
+            return
         self.instances.setdefault(rid, []).append(dict(site=site, what=key, verdict="violation", message=message, **detail))
         self.obligations += 1
         self.violations.append(Violation(rid, key, site, message, detail))
